@@ -90,4 +90,14 @@ Proof.
   exact (start_well_locked f cp _ H).
 Qed.
 
+(* agreement with the model on a case implies the property on that case *)
+Theorem no_mismatch_holds c :
+  Forall (fun x => f_par (fst (snd x)) = c_par c) (c_fans c) -> mismatch c = false -> holdsb c = true.
+Proof.
+  intros HP M. unfold holdsb. destruct (c_par c) eqn:P; [reflexivity|]. cbn [negb implb].
+  unfold mismatch in M. apply negb_false_iff in M. rewrite !andb_true_iff in M. destruct M as [_ M].
+  rewrite (sequential_never_allowed c HP) in M.
+  destruct (pdb (map snd (o_ivs c))); [reflexivity|discriminate].
+Qed.
+
 Definition finding_code (c : case) : Z := 0.
